@@ -30,6 +30,8 @@ Chk(cond, r, clause) == IF cond THEN TRUE ELSE Fail(r, clause)
 ViewsAgree(St) ==
   \A e \in E : /\ St.first[e] = First(St, e) /\ St.lastc[e] = Last(St, e)
                /\ St.len[e] = Len(St.kids[e])
+               \* the child list seen by iteration and by indexing (when recorded) is the one the sibling links give
+               /\ ("iter" \in DOMAIN St => St.iter[e] = St.kids[e] /\ St.byidx[e] = St.kids[e])
                /\ (St.parent[e] # 0 /\ e \in Range(St.kids[St.parent[e]])) =>
                      (St.next[e] = NextSib(St, e) /\ St.prev[e] = PrevSib(St, e))
                /\ St.parent[e] = 0 => (St.next[e] = 0 /\ St.prev[e] = 0)
